@@ -251,6 +251,28 @@ def _builtin_max(engine, st, args, node, kwargs):
     return V(Int, [r])
 
 
+@external("builtin_min")
+def _builtin_min(engine, st, args, node, kwargs):
+    """min(<dict or set>): the least key; raises ValueError iff empty."""
+    from .engine import NeedSplit, RaiseSignal
+
+    c = engine.deref(st, args[0])
+    if not (isinstance(c, V) and isinstance(c.t, (Ty.Map, Ty.Set))):
+        raise Unsupported("min() of this container")
+    dom = c.c[0]
+    empty = dom == z3.K(Ty.IntS, z3.BoolVal(False))
+    d = st.decided(empty)
+    if d is None:
+        raise NeedSplit(empty)
+    if d:
+        raise RaiseSignal("ValueError")
+    r = engine.fresh(st, "min", node, Ty.IntS)
+    k = z3.Int("mn!k")
+    st.assume(dom[r])
+    st.assume(z3.ForAll([k], z3.Implies(dom[k], k >= r)))
+    return V(Int, [r])
+
+
 @external("object.__new__")
 def _object_new(engine, st, args, node, kwargs):
     """object.__new__(cls): a fresh object with no attribute set yet."""
@@ -526,11 +548,15 @@ def model_summary(m, limit=40):
     return out
 
 
-def verify_function(contract, registry, quick=True, cli=True):
+def verify_function(contract, registry, quick=True, cli=True, shard=None):
+    """shard=(i, n): discharge only obligations with index % n == i (the
+    symbolic execution is repeated in every shard; used to spread functions
+    with thousands of path obligations over the worker pool)."""
     res = FnResult(contract)
     t0 = time.time()
     eng = Engine(contract, registry)
     eng.use_cli = cli
+    eng.shard = shard
     try:
         fn = eng.load_source()
     except (AttributeError, KeyError, ImportError, OSError, TypeError) as e:
@@ -625,13 +651,16 @@ def _run(eng, contract, fn, res):
     if npaths == 0:
         raise Unsupported("no feasible path through the function")
     # discharge
-    for ob in eng.obligations:
+    shard = getattr(eng, "shard", None)
+    for oi, ob in enumerate(eng.obligations):
+        if shard is not None and oi % shard[1] != shard[0]:
+            continue
         status, backend, dt, detail = discharge(eng, ob)
         res.obligations.append(
             {"label": ob.label, "kind": ob.kind, "status": status, "backend": backend, "time_s": dt, "detail": detail, "line": ob.lineno}
         )
     # canary: 'False' after a returning path must NOT be provable
-    if contract.canary and canary_state is not None:
+    if contract.canary and canary_state is not None and (shard is None or shard[0] == 0):
         cob = Obligation("canary", "canary", list(canary_state.pc), z3.BoolVal(False))
         status, backend, dt, _ = discharge(eng, cob, want_model=False, quick_ms=1500)
         res.canary = status != "discharged"
